@@ -118,7 +118,12 @@ def execute(profile, seed=None, cfg=None, events=None, tier="quick", time_limit=
     res.events = sim.events
     res.counters = sim.counters
     res.nontrivial = sim.counters.get("oracle.nontrivial", 0)
-    res.digest = _digest_events(sim.events, json.dumps(res.violation, sort_keys=True, default=repr))
+    try:
+      final = json.dumps(sim.sigma, sort_keys=True, default=repr) if sim.sigma is not None else ""
+    except (RecursionError, ValueError):
+      final = "unserialisable"
+    res.digest = _digest_events(sim.events, json.dumps(res.violation, sort_keys=True, default=repr)
+                                + final + json.dumps(sim.counters, sort_keys=True))
   res.wall = time.time() - t0
   return res
 
